@@ -1,6 +1,7 @@
 # Workload generators (DESIGN.md 2.2): LRU grammar classes, configurations and
 # operation histories.  Everything is derived from a random.Random handed in by
 # the caller, so a case is reproducible from (VERIF_SEED, property, shard, index).
+import random
 import re
 
 from .model import Model
@@ -401,8 +402,18 @@ def gen_history(rng, cfg, pool, text, nops, weights=None, allow_uncrawled_pages=
         elif k == "mvp" and len(m.we) > 0:
             p = rng.choice(sorted(m.we))
             of = rng.choice(sorted(m.we))
-            ops.append({"op": "mvp", "prefix": p, "of": of, "with_src": rng.random() < 0.7, "alias": rng.random() < 0.3})
-            m.we[p] = m.we[of]
+            r1, r2 = rng.random(), rng.random()
+            op = {"op": "mvp", "prefix": p, "of": of, "with_src": r1 < 0.7, "alias": r2 < 0.3}
+            if r1 >= 0.8:
+                # a move without source of a prefix that belongs to no webentity (often not even stored yet): it then acts
+                # as an attachment. Drawn from a side generator so that the main stream of the workload is unchanged.
+                side = random.Random(int(r1 * 2 ** 53))
+                q = some_prefix(side, side.choice(pool), 1, 6)
+                if q not in m.we:
+                    op["prefix"], op["fresh"] = q, True
+                    m.ins(q)
+            ops.append(op)
+            m.we[op["prefix"]] = m.we[of]
         elif k == "rule":
             r0 = rng.random()
             short_pages = sorted(p_ for p_ in m.pages if 2 <= len(stems(p_)) <= 5)
